@@ -218,3 +218,73 @@ impl<T> EventNode<T> {
         (unsafe { this.value.take().unwrap_unchecked() }, this.time)
     }
 }
+
+// Verification hooks (read-only introspection), compiled only with
+// `--cfg petrichorit_des_verif`.
+#[cfg(petrichorit_des_verif)]
+pub mod verif {
+    use super::{DualLinkedList, EventNode};
+
+    /// One node of a bucket list as seen by a bounded forward walk.
+    #[derive(Debug, Clone, PartialEq, Eq)]
+    pub struct NodeSnapshot {
+        pub addr: usize,
+        pub time_nanos: u128,
+        pub id: usize,
+        pub prev: usize,
+        pub next: usize,
+        pub has_value: bool,
+    }
+
+    /// A read-only description of one bucket.
+    #[derive(Debug, Clone)]
+    pub struct BucketSnapshot {
+        pub recorded_len: usize,
+        pub head: NodeSnapshot,
+        pub tail: NodeSnapshot,
+        /// Nodes strictly between head and tail, in list order.
+        pub nodes: Vec<NodeSnapshot>,
+        /// `false` if the walk hit the iteration bound or a null pointer before the tail.
+        pub walk_terminated: bool,
+    }
+
+    fn snap<T>(ptr: *const EventNode<T>) -> NodeSnapshot {
+        let node = unsafe { &*ptr };
+        NodeSnapshot {
+            addr: ptr as usize,
+            time_nanos: node.time.as_nanos(),
+            id: node.id,
+            prev: node.prev as usize,
+            next: node.next as usize,
+            has_value: node.value.is_some(),
+        }
+    }
+
+    impl<T> DualLinkedList<T> {
+        pub(crate) fn verif_snapshot(&self, bound: usize) -> BucketSnapshot {
+            let head_ptr: *const EventNode<T> = &*self.head;
+            let tail_ptr: *const EventNode<T> = &*self.tail;
+            let mut nodes = Vec::new();
+            let mut terminated = true;
+            let mut cur: *const EventNode<T> = self.head.next;
+            loop {
+                if cur.is_null() || nodes.len() > bound {
+                    terminated = false;
+                    break;
+                }
+                if cur == tail_ptr {
+                    break;
+                }
+                nodes.push(snap(cur));
+                cur = unsafe { (*cur).next };
+            }
+            BucketSnapshot {
+                recorded_len: self.len,
+                head: snap(head_ptr),
+                tail: snap(tail_ptr),
+                nodes,
+                walk_terminated: terminated,
+            }
+        }
+    }
+}
